@@ -156,8 +156,8 @@ def leg_matches(tok, leg, kind):
         return ",".join(toks) == tok
     if tok == "syn":
         return None   # model makes no prediction (not a single template literal)
-    if kind == "tag":
-        return end is None and "s" + text.decode("utf-8", "replace").replace(" ", "_") == tok
+    if kind in ("tag", "enum"):
+        return end is None and "s" + text.decode("utf-8", "replace").replace(" ", "_").replace("\n", "|") == tok
     if tok == "trap":
         return text == b"" and bool(end) and end.startswith("trap:")
     if end is not None:
@@ -407,6 +407,17 @@ def gen_veqr(rng):
     return f"veqr {f(a)} {f(b)}"
 
 
+ENUM_SHAPES = {1: 3, 2: 4, 3: 2, 4: 3, 5: 1}
+
+
+def gen_enum(rng):
+    """a value of one of five enum layouts (Int31+Unboxed, Int31+Boxed+Boxed, Boxed only, demoted
+    Unboxed, single Unboxed); field values include the odd numbers that are printed tags"""
+    sh = rng.pick(list(ENUM_SHAPES))
+    v = lambda: rng.pick([0, 1, 2, 3, 5, 7, -1, rng.range(0, 30) - 10])
+    return f"enum {sh} {rng.below(ENUM_SHAPES[sh])} {v()} {v()}"
+
+
 def gen_tag(rng):
     """variant tests on unboxed payloads: one-field struct / Vec<int> whose content is a small number
     (odd numbers are the printed i31 tags), empty Vec, and the payload-free variants themselves"""
@@ -422,7 +433,7 @@ def gen_stream(rng, n_bulk):
     """bulk stream: steered away from the open signatures"""
     lines = []
     for _ in range(n_bulk):
-        k = rng.weighted([("bin", 44), ("str", 20), ("i2s", 8), ("s2i", 7), ("vec", 6), ("vecfull", 5), ("veq", 6), ("seq", 4), ("tag", 5), ("vecr", 3), ("veqr", 3)])
+        k = rng.weighted([("bin", 44), ("str", 20), ("i2s", 8), ("s2i", 7), ("vec", 6), ("vecfull", 5), ("veq", 6), ("seq", 4), ("tag", 5), ("vecr", 3), ("veqr", 3), ("enum", 6)])
         if k == "bin":
             lines.append(gen_bin(rng))
         elif k == "str":
@@ -439,6 +450,8 @@ def gen_stream(rng, n_bulk):
             lines.append(gen_seq(rng))
         elif k == "tag":
             lines.append(gen_tag(rng))
+        elif k == "enum":
+            lines.append(gen_enum(rng))
         elif k == "vecr":
             lines.append(gen_vecr(rng))
         elif k == "veqr":
@@ -520,7 +533,7 @@ def nontrivial(line, impl_ans):
         return len(t) >= 3
     if t[0] == "veq":
         return t[1] != "-" or t[2] != "-"
-    if t[0] in ("seq", "tag", "vecr", "veqr"):
+    if t[0] in ("seq", "tag", "vecr", "veqr", "enum"):
         return True
     return False
 
@@ -900,6 +913,9 @@ def dense_lines():
                 l = f"bin {op} {a2} {b2}"
                 if not excluded(l):
                     out.append(l)
+    for e in "tv0bfnr\\":
+        out.append("!str " + hexs("a\\" + e + "b"))
+    out += ["!str " + hexs("a\\01"), "!str " + hexs("a\rb"), "!str " + hexs("a`b${c}"), "!str " + hexs("$\\n{")]
     for c in PLAIN + "\"":
         out.append("str " + hexs("a" + (c if c != '"' else '\\"') + "b"))
     for n in vals:
@@ -910,6 +926,7 @@ def dense_lines():
     out += [f"seq {hexs(a)} {x} {hexs(b)} {y}" for a, x in strs for b, y in strs]
     out += ["vecr push:0 push:2 push:3 get:1 get:2 set:0:3 get:0 pop pop pop pop", "vecr get:0", "vecr push:1 len pop len",
             "veqr 2 3", "veqr 2 2", "veqr 0,1 0,1,2", "veqr - 0", "veqr - -", "veqr 0,2 0,3"]
+    out += [f"enum {sh} {k} {a} {b}" for sh, n in ENUM_SHAPES.items() for k in range(n) for a, b in [(1, 3), (3, 1), (0, 5)]]
     out += [f"tag box {n}" for n in range(-2, 8)] + [f"tag vec {n}" for n in ["-", 0, 1, 2, 3, 5]] + ["tag none 0", "tag other 0"]
     out += ["vec new:of:7 get:0 push:1 cap res:20 cap len pop pop len", "vec new:cap:16 cap len push:3 cap pop len",
             "vec new:cap:0 push:1 push:2 get:1 cap", "vec res:-1 cap res:3 cap push:1 res:9 cap get:0"]
@@ -940,9 +957,14 @@ def run_runtime_pins():
 
 
 def run_extractor():
-    p = subprocess.run([sys.executable, os.path.join(common.VERIF, "extract", "c04_tsops.py")],
-                       stdout=subprocess.PIPE, stderr=subprocess.STDOUT)
-    return p.returncode, p.stdout.decode("utf-8", "replace")
+    """both translators (operator table, string-constant printers); rc != 0 if either fails"""
+    rc, log = 0, ""
+    for script in ("c04_tsops.py", "c04_strings.py"):
+        p = subprocess.run([sys.executable, os.path.join(common.VERIF, "extract", script)],
+                           stdout=subprocess.PIPE, stderr=subprocess.STDOUT)
+        rc = rc or p.returncode
+        log += p.stdout.decode("utf-8", "replace")
+    return rc, log
 
 
 # ------------------------------------------------------------------ entry points
@@ -959,8 +981,8 @@ def run(ctx):
     if rc != 0:
         found = harness_ok and (searched[0] or do_search()) and any(not v[1] for v in ctx.violations)
         if not found:
-            ctx.violation("operator-table translator extract/c04_tsops.py no longer understands the source: " + xlog.strip()[-300:],
-                          {"broken": "tie: Generated/TsOps.lean cannot be regenerated from /repo", "log": xlog[-2000:]}, no_input=True)
+            ctx.violation("translator extract/c04_tsops.py / c04_strings.py no longer understands the source: " + xlog.strip()[-300:],
+                          {"broken": "tie: Generated/TsOps.lean / Generated/StrEsc.lean cannot be regenerated from /repo", "log": xlog[-2000:]}, no_input=True)
     stats = {}
     pins = None
     if harness_ok:
@@ -1014,14 +1036,15 @@ def run(ctx):
         "engine limits (stack depth, memory) are not part of the comparison",
         "Str.toInt on input that is not a canonical in-range decimal is implementation-defined by the specification and excluded from the oracle (still compared against the model)"]
     return ctx.finish(res, trusted=common.TRUSTED_COMMON + [
-        "extract/c04_tsops.py (regex translator of the operator tables of hir.rs/lir.rs/wasm.rs into Generated/TsOps.lean), cross-checked by the execution of the same operators",
+        "extract/c04_tsops.py (regex translator of the operator tables of hir.rs/lir.rs/wasm.rs into Generated/TsOps.lean) and extract/c04_strings.py (lexer escape letters, wasm escape table, TypeScript rewrites into Generated/StrEsc.lean), cross-checked by the execution of the same operators / literals",
         "hand-written models of the two runtimes (Model/Backends.lean): JS template-literal cooking, byte-wise decoding in loader.js, Str.fromInt/toInt, Vec with i31 boxing; tied by execution on Node >= 22",
         "Node 22 / V8 as the execution oracle of both emitted programs",
         "not modelled: code generation of whole programs (struct layout, closures, pattern matching, control flow) — reached only by the program oracle; SHL/SHR/LAND/LOR are not producible from source programs and are tied by the extracted table only"])
 
 
 MAX_REPORTS = 4
-PENDING = ["Vec of reference elements (Vec<Str>, Vec<Vec<int>>): element identity is only exercised by tests.AllTests, not modelled"]
+PENDING = ["closures, struct field layout beyond the tag field, control flow and the optimiser's effect on emitted code: differential only",
+           "type_permit_enum_boxed_optimization (which field types are pointer-only) is an input of the layout model, not modelled"]
 
 
 def replay(ctx, path):
